@@ -80,7 +80,9 @@ def merge_6793(path2, path4):
     return [(t, a) for t, a, _whole in out] + list(path4)
 
 
-def expected_update(body: bytes, asn4: bool, addpath=lambda afi, safi: False):
+def expected_update(body: bytes, asn4: bool, addpath=lambda afi, safi: False, discarded=frozenset()):
+    """`discarded`: attribute types removed by RFC 7606 attribute discard -- the UPDATE is read as if they had not been sent
+    (a malformed AGGREGATOR, once discarded, no longer says anything about AS4_PATH)"""
     wl = int.from_bytes(body[0:2], 'big')
     wd = body[2 : 2 + wl]
     al = int.from_bytes(body[2 + wl : 4 + wl], 'big')
@@ -95,6 +97,8 @@ def expected_update(body: bytes, asn4: bool, addpath=lambda afi, safi: False):
         if typ in seen:
             continue  # RFC 7606 3.g: first occurrence wins
         seen.add(typ)
+        if typ in discarded:
+            continue
         if typ == 1:
             attribute['origin'] = ORIGIN[val[0]]
         elif typ == 2:
